@@ -47,6 +47,12 @@ var aqAttrLists = map[string][]msg.ReqAttr{
 	"email+custom+email": {{Name: "Email", NameFormat: msg.FmtBasic}, {Name: "role", NameFormat: "urn:custom:fmt"}, {Name: "Email", NameFormat: msg.FmtBasic, FriendlyName: "mail"}},
 	"all-unknown":    {{Name: "ShoeSize", NameFormat: msg.FmtBasic}, {Name: "Hat", NameFormat: "urn:custom:fmt"}},
 	"custom2":        {{Name: "dept", NameFormat: "urn:custom:fmt"}},
+	// pairs whose concatenations collide with (Name, NameFormat) of an attribute the user has
+	"collide-fmt+name": {{Name: "ole", NameFormat: "urn:custom:fmtr"}},
+	"collide-name+fmt": {{Name: "rol", NameFormat: "eurn:custom:fmt"}},
+	"collide-std-nofmt": {{Name: msg.FmtBasic + "Email"}},
+	"collide-std-noname": {{Name: "", NameFormat: msg.FmtBasic + "Email"}},
+	"collide-swapped":  {{Name: "urn:custom:fmt", NameFormat: "role"}},
 }
 
 func aqUser(shape string) *world.User {
